@@ -6,14 +6,20 @@ filter.go filterSetProperties / update / refreshFiltersArray,
 rulelist/parser.go), and which rule lines are IN FORCE for a query.
 
 The model tracks the CONFIGURED state: for every list its source, whether it is
-enabled, the content stored at its last download and the checksum kept for it.
-The rule lines in force are, by the property, the custom rules followed by the
-stored content of the ENABLED block lists (allow lists likewise): the model has
-no separate "engine" state, so an implementation whose engines lag behind the
-configuration disagrees with it.
+enabled, the content stored at its last download (the file `<id>.txt`) and the
+checksum kept for it.  WHAT MUST BE IN FORCE for a query is, by the property,
+the custom rules followed by the STORED FILES of the ENABLED block lists (allow
+lists likewise), whatever the downloads returned: a download whose checksum
+equals the kept one (in particular an empty download after `unload`, checksum 0)
+stores nothing, so the file of the previous download stays and is what an
+enabled list contributes.  The model has no separate "engine" state, so an
+implementation whose engines lag behind the configuration disagrees with it.
+This follows the code since c5ab9db (`filterSetProperties` reloads the filters
+on every change of URL or enabled flag, even when the download is "not
+updated"); before that commit the engines could lag.
 
-Sources are local files under a safe pattern; they always exist and the
-generator never makes one empty (an empty download is "not updated").
+Sources are local files under a safe pattern; they always exist but may be
+empty or consist of comments only.
 -/
 import AGH.Model.FilterRules
 namespace AGH.Filter.Cfg
